@@ -107,9 +107,19 @@ fn run<K: TestKey>(args: &Args) -> i32 {
     if observe_each {
         ack.line(format!("O -1 {}", observe(sess.cas()).to_json().to_string()));
     }
+    // After an operation has failed, copies of the directory are taken at the following
+    // operation boundaries (`S i`): each is what a restart at that moment would find, so damage
+    // that a later operation of the same session happens to heal is still seen.
+    let snap_dir = args.get("snap-dir").map(std::path::PathBuf::from);
+    let snap_limit = args.u64("snap-limit", 0);
+    let mut failed_seen = false;
+    let mut snaps = 0u64;
     for (i, op) in ops.iter().enumerate() {
         ack.line(format!("B {i} {}", shim_counter()));
         let r = sess.exec(op);
+        if r.is_err() {
+            failed_seen = true;
+        }
         match &r {
             Ok(o) => ack.line(format!("A {i} {} ok {}", shim_counter(), outcome_text(o))),
             Err(e) => ack.line(format!("A {i} {} err {}", shim_counter(), e.replace('\n', " "))),
@@ -121,6 +131,16 @@ fn run<K: TestKey>(args: &Args) -> i32 {
         ack.line(format!("V {i} {}", versions_text(&root)));
         if observe_each {
             ack.line(format!("O {i} {}", observe(sess.cas()).to_json().to_string()));
+        }
+        if failed_seen
+            && snaps < snap_limit
+            && let Some(d) = &snap_dir
+        {
+            let dst = d.join(format!("snap-{i}"));
+            if cassadilia_verif::fsx::copy_tree(&root, &dst).is_ok() {
+                ack.line(format!("S {i}"));
+                snaps += 1;
+            }
         }
     }
     ack.line(format!("CLOSE-BEGIN {}", shim_counter()));
